@@ -26,7 +26,8 @@ import (
 // with the same version runs on the same files.
 
 type c27File struct {
-	Kind string `json:"kind"` // valid warn invalid garbage missing
+	Kind string `json:"kind"` // valid warn gated invalid garbage missing (gated: a key removed in v2.6 -> rejected by a
+	// running version above it, only a warning without a version)
 	K    int    `json:"k,omitempty"`
 }
 type c27Step struct {
@@ -58,6 +59,11 @@ func c27GenFile(r *rand.Rand, rules bool) *c27File {
 			return &c27File{Kind: "valid", K: k + 3}
 		}
 		return &c27File{Kind: "warn", K: k}
+	case x < 72:
+		if !rules {
+			return &c27File{Kind: "gated", K: k}
+		}
+		return &c27File{Kind: "invalid", K: k}
 	case x < 80:
 		return &c27File{Kind: "invalid", K: k}
 	case x < 90:
@@ -70,8 +76,8 @@ func c27GenFile(r *rand.Rand, rules bool) *c27File {
 func c27Gen(r *rand.Rand, tier string, i int) any {
 	in := c27Input{Version: []string{"", "v2.9.0", "v3.0.0", "v3.1.0"}[r.Intn(4)]}
 	in.Cfg = c27File{Kind: "valid", K: r.Intn(3)}
-	if in.Version != "v3.1.0" && r.Intn(3) == 0 {
-		in.Cfg.Kind = "warn"
+	if in.Version != "v3.1.0" && r.Intn(2) == 0 {
+		in.Cfg.Kind = "warn" // the process STARTS with a warning-only config
 	}
 	in.Rules = c27File{Kind: "valid", K: r.Intn(3)}
 	n := 3 + r.Intn(5)
@@ -132,6 +138,8 @@ func c27CfgBytes(f c27File) []byte {
 		return []byte(base)
 	case "warn": // Collection.CacheCapacity: deprecated, lastversion v3.0.0
 		return []byte(base + fmt.Sprintf("Collection:\n  CacheCapacity: %d\n  PeerQueueSize: %d\n", 1000+f.K, 3000+f.K))
+	case "gated": // RedisPeerManagement.Prefix: deprecated, lastversion v2.6
+		return []byte(base + fmt.Sprintf("RedisPeerManagement:\n  Prefix: pre%d\n", f.K))
 	case "invalid":
 		if f.K%2 == 0 {
 			return []byte(base + "Traces2:\n  Bogus: 1\n")
@@ -385,6 +393,12 @@ func c27Run(raw json.RawMessage) (Case, error) {
 		tags["trigger:"+st.Trigger] = true
 		if v.readable && v.acc && v.warn {
 			tags["warning-only-content"] = true
+		}
+		if v0.warn {
+			tags["started-with-warning-only-config"] = true
+			if v.readable && !v.acc {
+				tags["started-with-warnings-then-rejected-content"] = true
+			}
 		}
 		if !v.readable {
 			tags["unreadable"] = true
